@@ -90,6 +90,14 @@ func c16Cells(tier string) []Cell {
 
 	cells = append(cells, Cell{ID: c16Cell{Kind: "invalidator", C: -1}.id()})
 
+	// The index pairs once more with a deleter that fails (a remote second-level cache that is down): InvalidateByLabels
+	// then takes its put-back path (PerCall marks the variant)
+	for a := range c16IndexOps {
+		for b := a; b < len(c16IndexOps); b++ {
+			cells = append(cells, Cell{ID: c16Cell{Kind: "index", A: a, B: b, C: -1, PerCall: true}.id()})
+		}
+	}
+
 	// Two Gets on two keys under ONE caller context that carries a TTL (a request-scoped context handed to several
 	// lookups): the TTL cell behind it is shared, the library may read it but must not write to it on its own.
 	for front := 0; front < 3; front++ {
@@ -334,7 +342,14 @@ func c16IndexBody(cc c16Cell) func() {
 		c1, c2 := newBackend("ShardedMap", cfg), newBackend("SyncMap", cfg)
 		ctx := context.Background()
 		idx := cache.NewInvalidationIndex()
-		idx.AddCache("one", deleterOf(c1))
+
+		if cc.PerCall {
+			idx.AddCache("one", deleterFn(func(ctx context.Context, key []byte) error { return errInjected }))
+			idx.AddLabels("one", []byte("k3"), "L")
+		} else {
+			idx.AddCache("one", deleterOf(c1))
+		}
+
 		idx.AddLabels("one", []byte("k1"), "L")
 		_ = c1.Write(ctx, []byte("k1"), 1)
 		_ = c2.Write(ctx, []byte("k2"), 2)
@@ -526,7 +541,7 @@ func init() {
 		ID: "C16", Title: "The public API is free of data races",
 		Cells: c16Cells, Run: c16Run, Race: true,
 		Rule: "client programs: EVERY unordered pair (self-pairs included) of {Read, Write, Delete, ExpireAll, DeleteAll, Len, Walk (reading Key bytes/Value/ExpireAt), Dump, Restore, cleanup, cleanup+eviction, AddInvalidationLabels, InvalidateByLabels} " +
-			"on a shared instance x 3 backends x 3 eviction strategies; every pair of InvalidationIndex operations; two Gets on one key for Failover/FailoverOf x entry state x builder outcome x SyncUpdate x SyncRead incl. the background build; two Gets on two keys under one shared TTL-carrying caller context; Invalidate || Invalidate; " +
+			"on a shared instance x 3 backends x 3 eviction strategies; every pair of InvalidationIndex operations, also with a failing deleter (put-back path); two Gets on one key for Failover/FailoverOf x entry state x builder outcome x SyncUpdate x SyncRead incl. the background build; two Gets on two keys under one shared TTL-carrying caller context; Invalidate || Invalidate; " +
 			"thorough adds all triples of the operations that touch entries in place. For each program ALL interleavings of its synchronisation operations within the bound are executed in a -race build whose scheduler hand-offs are invisible to the detector; " +
 			"the race detector is the per-execution oracle; a violation's signature is the unordered pair of top bool64/cache frames of the two accesses",
 		Assumptions: []string{
